@@ -1154,6 +1154,7 @@ func gen(rng *vh.Rng, n int, emit func(id string, sel int, in []int64, kind stri
 			emit(c.id+"/lister", 4, c.toks, c.kind, assigned >= 2, desc)
 		}
 	}
+	fmt.Fprintf(os.Stderr, "generator: %d history steps replaced by a uniform-utilisation step after the float-exact search gave up, %d histories shortened\n", uniformFallbacks, shortenedHistories)
 	fmt.Fprintf(os.Stderr, "generator: %d inputs moved to the near-tie stream by the float-order guard (kind near-tie/guard-rejected)\n", rejected)
 }
 
